@@ -32,7 +32,7 @@ Proof.
   - destruct (alookup n (st_outs s)) as [os|] eqn:El.
     + destruct (close_ostream E _ n os) as [[s1 code] err] eqn:Ec.
       destruct (close_ostream_good _ _ _ _ _ _ _ (good_aremove E s n Hg) (good_lookup _ _ _ _ Hg El) Ec) as (_ & Hc).
-      intros H; injection H as <- <-. split; auto. cbn [st_obs add_obs]. exists (st_obs (if err then print_errorf E (add_log s1 (EvClose n false code)) else add_log s1 (EvClose n false code))).
+      intros H; injection H as <- <-. split; auto. cbn [st_obs add_obs]. eexists.
       f_equal. f_equal. destruct (os_kind os).
       * injection Hc as -> ->. auto.
       * rewrite <- wait_result_table. rewrite <- Hc. auto.
@@ -65,9 +65,9 @@ Theorem write_failure_after_failed_flush E cap s ps ops :
 Proof.
   intros Hm He Hp. unfold run. cbn [exec step get_output_stream].
   unfold write_stdout. rewrite Hm.
-  assert (Ht : st_out (add_log (touch E s) (EvWrite WStdout (concat ps))) = st_out s).
+  assert (Ht : st_out (add_log (touch E s (length (concat ps))) (EvWrite WStdout (concat ps))) = st_out s).
   { cbn [st_out add_log]. unfold touch.
     destruct (negb (is_osfile (e_mode E)) && any_cmd (st_outs s)); cbn [st_outs set_overlap];
-    destruct (any_active (st_outs s)); auto. }
+    match goal with |- context [if ?c then set_unmod _ else _] => destruct c end; auto. }
   rewrite Ht. destruct ps as [|p ps]; [contradiction|]. cbn [write_pieces_buf]. unfold bw_write_string. rewrite He. reflexivity.
 Qed.
